@@ -130,6 +130,20 @@ func init() {
 	// ---- logic
 	reg("vh/vf.And", func(e *Exec, a []Value) Value { return e.tt.And(a[0].(*Term), a[1].(*Term)) })
 	reg("vh/vf.Or", func(e *Exec, a []Value) Value { return e.tt.Or(a[0].(*Term), a[1].(*Term)) })
+	reg("vh/vf.All", func(e *Exec, a []Value) Value {
+		r := e.tt.Bool(true)
+		for _, c := range e.variadic(a[0]) {
+			r = e.tt.And(r, c.(*Term))
+		}
+		return r
+	})
+	reg("vh/vf.Any", func(e *Exec, a []Value) Value {
+		r := e.tt.Bool(false)
+		for _, c := range e.variadic(a[0]) {
+			r = e.tt.Or(r, c.(*Term))
+		}
+		return r
+	})
 	reg("vh/vf.Implies", func(e *Exec, a []Value) Value { return e.tt.Implies(a[0].(*Term), a[1].(*Term)) })
 	reg("vh/vf.Assume", func(e *Exec, a []Value) Value {
 		c := a[0].(*Term)
